@@ -126,6 +126,39 @@ func genDoc(r *hx.Rng, format string) Doc {
 	return d
 }
 
+// recurTitles: heading texts that documents repeat ("Overview" under every chapter). Single line,
+// nothing a Markdown reader would take for a marker at the start of a line.
+var recurTitles = []string{"Overview", "Summary | notes", "Übersicht", "Usage", "Notes and “remarks”", "日本語の見出し"}
+
+// decorateDoc varies what genDoc leaves fixed, from a generator of its own (genDoc's draws, and with
+// them GenRich, stay as they are):
+//   - which rows / cells of a table the source marks as header (Head): 0, 1, 2, 3 or all rows as
+//     header rows in every spelling the format has, row-header cells, a footer group;
+//   - recurring heading texts: in half of the documents the heading texts come from a pool of two or
+//     three titles, so equal titles occur at the same and at different levels, next to each other
+//     and with other headings in between.
+func decorateDoc(r *hx.Rng, d *Doc, format string) {
+	pool := append([]string(nil), recurTitles...)
+	hx.Shuffle(r, pool)
+	pool = pool[:r.Range(2, 3)]
+	recur := r.Bool()
+	for i := range d.Blocks {
+		b := &d.Blocks[i]
+		switch b.Kind {
+		case "heading":
+			if recur && r.Chance(3, 4) {
+				b.Text = hx.Pick(r, pool)
+			}
+		case "table":
+			if r.Chance(3, 4) {
+				n := len(b.Rows)
+				b.Head = Head{Set: true, Rows: hx.Pick(r, []int{0, 1, 2, 2, 3, n - 1, n}), Via: r.Intn(HeadVias(format)), RowHead: r.Chance(1, 4), Foot: r.Chance(1, 5)}
+				b.Head.Rows = min(max(b.Head.Rows, 0), n)
+			}
+		}
+	}
+}
+
 // GenRich returns the bytes of a generated document of the format ("docx", "odt", "pptx",
 // "html", "xlsx") with headings, nested lists and tables with merged cells — for other
 // harnesses that need a structurally rich valid document.
@@ -291,6 +324,7 @@ func runDocument(c *hx.Ctx, idx int, format string, keep bool) {
 	}
 	r := c.Rng.Fork(uint64(3+fi)<<40 | uint64(idx))
 	d := genDoc(r, format)
+	decorateDoc(c.Rng.Fork(uint64(24+fi)<<40|uint64(idx)), &d, format)
 	o := docOptions(idx)
 	path := filepath.Join(c.OutDir, fmt.Sprintf("c15-%d.%s", idx, format))
 	os.WriteFile(path, writeDoc(format, d), 0o644)
@@ -339,6 +373,11 @@ func runDocument(c *hx.Ctx, idx int, format string, keep bool) {
 
 func checkDocument(c *hx.Ctx, format string, d Doc, o rag.MarkdownOptions, md string, kase docCase, via string) {
 	got := readMD(md)
+	if format == ragFormat && d.Title != "" && len(got.Headings) > 0 && got.Headings[0].Level == 1 && got.Headings[0].Text == d.Title {
+		// the document title line the chunk writer puts on top ("# <title>", generated titles are no
+		// heading texts): not a source heading
+		got.Headings = got.Headings[1:]
+	}
 	show := func() string {
 		if len(md) > 1500 {
 			return md[:1500] + "…"
@@ -347,6 +386,7 @@ func checkDocument(c *hx.Ctx, format string, d Doc, o rag.MarkdownOptions, md st
 	}
 	// --- headings ---
 	var wantH []mdHeading
+	var srcH []int // authored level of each heading
 	for _, b := range d.Blocks {
 		if b.Kind == "heading" {
 			lvl := b.Level
@@ -354,6 +394,7 @@ func checkDocument(c *hx.Ctx, format string, d Doc, o rag.MarkdownOptions, md st
 				lvl = 1 // slide titles
 			}
 			wantH = append(wantH, mdHeading{Level: clampLevel(lvl, o.HeadingLevelOffset, o.MaxHeadingLevel), Text: b.Text})
+			srcH = append(srcH, lvl)
 		}
 	}
 	c.Check("C15/heading-range", len(got.TooDeep) == 0, kase, func() string {
@@ -370,17 +411,19 @@ func checkDocument(c *hx.Ctx, format string, d Doc, o rag.MarkdownOptions, md st
 				detail = fmt.Sprintf("heading %d: read %q, want level %d (offset %d, max %d) text %q", i, got.Headings[i].Raw, wantH[i].Level, o.HeadingLevelOffset, o.MaxHeadingLevel, wantH[i].Text)
 			}
 		}
-		c.Check("C15/heading-level-"+format, ok, kase, func() string { return via + ": " + detail + "\n" + show() })
-		for i := 0; ok && i < len(wantH); i++ {
-			src := 1
-			if format != "pptx" {
-				for _, b := range d.Blocks {
-					if b.Kind == "heading" && b.Text == wantH[i].Text {
-						src = b.Level
-					}
+		hkey := "C15/heading-level-" + format
+		if format == ragFormat {
+			// own failure class: documents in which a heading repeats the text of the heading before it
+			// (the section it closes has the title of the section it opens)
+			for i := 1; i < len(wantH); i++ {
+				if wantH[i].Text == wantH[i-1].Text {
+					hkey = "C15/heading-level-" + format + "-title-equals-previous-heading"
 				}
 			}
-			docOp(c, fmt.Sprintf("c15.hlvl %d %d %d", src, o.HeadingLevelOffset, o.MaxHeadingLevel), fmt.Sprint(got.Headings[i].Level))
+		}
+		c.Check(hkey, ok, kase, func() string { return via + ": " + detail + "\nauthored: " + outline(d) + "\n" + show() })
+		for i := 0; ok && i < len(wantH); i++ {
+			docOp(c, fmt.Sprintf("c15.hlvl %d %d %d", srcH[i], o.HeadingLevelOffset, o.MaxHeadingLevel), fmt.Sprint(got.Headings[i].Level))
 			docOp(c, "c15.atx "+hx.HexS(got.Headings[i].Raw), fmt.Sprintf("%d %s", got.Headings[i].Level, hx.HexS(got.Headings[i].Text)))
 		}
 	}
